@@ -187,8 +187,10 @@ def kind_of(x):
 MOD, HIDDEN_MOD = 'm', 'hm'
 
 
-def L(action, mod, name, x=NOVALUE, why=''):
+def L(action, mod, name, x=NOVALUE, why='', hist=False):
     rec = {'a': action, 'mod': mod, 'name': name, 'why': why}
+    if hist:
+        rec['hist'] = True      # a history step: its acceptance changes how later requests must be answered
     if x is not NOVALUE:
         rec['x'] = V.enc(x)
     return rec
@@ -224,6 +226,12 @@ def writable(rec):
     return rec['mode'] in ('rw_write', 'rw_nowrite')
 
 
+def matters(rec):
+    """the current value of this parameter influences the answer to later requests: dynamic limits, parameters
+    carrying limits (their own undo / limit interplay) and parameters with struct members (merge with the current value)"""
+    return bool(rec.get('limit_of') or rec.get('limits') or R.has_struct(rec['spec']))
+
+
 def alphabet(ref, state, tier='quick'):
     """list of letters for module MOD given the exported state {attr: exported value}"""
     out = []
@@ -242,12 +250,13 @@ def alphabet(ref, state, tier='quick'):
         good = V.valid(spec, 'wire')
         wire = rec['wire']
         if wire and writable(rec):
+            h = matters(rec)
             for x in good:
-                add(L('change', MOD, wire, x, 'valid'))
+                add(L('change', MOD, wire, x, 'valid', h))
             for x in V.bad(spec, 'wire'):
                 add(L('change', MOD, wire, x, 'bad'))
             for x in partial_structs(spec):
-                add(L('change', MOD, wire, x, 'partial'))
+                add(L('change', MOD, wire, x, 'partial', h))
             if spec[0] == 'struct':
                 for x, nbad in V.cands(spec, 'wire', 1):
                     if nbad:
@@ -259,7 +268,7 @@ def alphabet(ref, state, tier='quick'):
                 for lim in lims:
                     if isinstance(lim, (int, float)) and not isinstance(lim, bool):
                         for x in (lim - st, lim, lim + st):
-                            add(L('change', MOD, wire, x, 'around-limit'))
+                            add(L('change', MOD, wire, x, 'around-limit', True))
         elif wire:
             for x in (good[0], good[-1], None, 'abc', [1]):
                 add(L('change', MOD, wire, x, 'not-writable'))
@@ -307,15 +316,15 @@ def alphabet(ref, state, tier='quick'):
     add(L('do', MOD, None, NOVALUE, 'no-accessible'))
     if 'target' not in params:
         add(L('change', MOD, None, 1, 'no-accessible'))
-    for attr, rec in params.items():
-        if rec['wire']:
-            add(L('change', HIDDEN_MOD, rec['wire'], V.valid(rec['spec'], 'wire')[0], 'unexported-module'))
-        add(L('change', HIDDEN_MOD, attr, V.valid(rec['spec'], 'wire')[0], 'unexported-module'))
-    for attr, rec in commands.items():
+    href = G.reference(G.HIDDEN_SHAPE)
+    for attr, rec in href['params'].items():
+        for name in sorted({rec['wire'], attr, '_' + attr} - {None}):
+            add(L('change', HIDDEN_MOD, name, V.valid(rec['spec'], 'wire')[0], 'unexported-module'))
+    add(L('change', HIDDEN_MOD, None, 1, 'unexported-module'))
+    for attr, rec in href['commands'].items():
         x = V.valid(rec['arg'], 'wire')[0] if rec['arg'] else NOVALUE
-        if rec['wire']:
-            add(L('do', HIDDEN_MOD, rec['wire'], x, 'unexported-module'))
-        add(L('do', HIDDEN_MOD, attr, x, 'unexported-module'))
+        for name in sorted({rec['wire'], attr, '_' + attr} - {None}):
+            add(L('do', HIDDEN_MOD, name, x, 'unexported-module'))
     return out
 
 
@@ -426,12 +435,13 @@ class World:
         self.mode = mode
         self.ref = G.reference(shape)
         cls = G.make_class(shape)
-        self.node = nodes.Node({MOD: {'cls': cls}, HIDDEN_MOD: {'cls': cls, 'export': False}})
+        self.node = nodes.Node({MOD: {'cls': cls}, HIDDEN_MOD: {'cls': G.make_class(G.HIDDEN_SHAPE), 'export': False}})
         self.c1 = self.node.connect()
         self.c2 = self.node.connect()
         self.node.request(self.c2, 'activate')
         self.c2.take()
         self.executed = []     # letters executed since build
+        self.snap = self.snapshot()
 
     def close(self):
         self.node.close()
@@ -453,10 +463,10 @@ class World:
 
     def state(self):
         """exported cache of module MOD: attr -> exported value"""
-        return {k.split(':', 1)[1]: v[0] for k, v in self.snapshot().items() if k.startswith(MOD + ':')}
+        return {k.split(':', 1)[1]: v[0] for k, v in self.snap.items() if k.startswith(MOD + ':')}
 
     def canon(self):
-        return json.dumps(sorted((k, repr(v[0]), v[1]) for k, v in self.snapshot().items()))
+        return json.dumps(sorted((k, repr(v[0]), v[1]) for k, v in self.snap.items()))
 
     def logs(self):
         return {mname: list(G.module_driver(mod).log) for mname, mod in self.mods().items()}
@@ -465,7 +475,7 @@ class World:
         """execute one request; returns the observation"""
         from vf import nodes
         G.CLOCK.advance(1.0)
-        before = self.snapshot()
+        before = self.snap
         internal = {a: p.value for a, p in self.mods()[MOD].parameters.items()}
         nlog = {m: len(G.module_driver(mod).log) for m, mod in self.mods().items()}
         line = line_of(letter)
@@ -486,7 +496,8 @@ class World:
             extra = self.c1.take()
         self.executed.append(letter)
         delta = {m: G.module_driver(mod).log[nlog[m]:] for m, mod in self.mods().items()}
-        return {'reply': reply, 'extra': extra, 'delta': delta, 'before': before, 'after': self.snapshot(),
+        self.snap = self.snapshot()
+        return {'reply': reply, 'extra': extra, 'delta': delta, 'before': before, 'after': self.snap,
                 'updates': self.c2.take(), 'internal': internal,
                 'new_internal': {a: p.value for a, p in self.mods()[MOD].parameters.items()}}
 
@@ -767,10 +778,18 @@ def expand(shard):
             else:
                 for sig, detail in problems:
                     part.violation(sig, case, detail)
-        dirty = bool(problems) or w.canon() != canon0 or any(obs['delta'].values())
-        if dirty:
-            if want_succ and not problems:
+        moved = w.canon() != canon0
+        if moved and not problems:
+            if want_succ == 'all' or (want_succ == 'hist' and letter.get('hist')):
                 part.succ.append((shape['name'], w.canon(), list(history) + [letter]))
+            # return to the state by a real request (change back to the previous exported value); the state reached is
+            # the same canonical state, all histories stay real request sequences
+            gexp = gate(ref, letter, state)
+            if gexp.kind == 'param':
+                w.step(L('change', MOD, gexp.rec['wire'], state[gexp.rec['name']], 'undo'))
+                part.transitions += 1
+                part.extra['undo_requests'] += 1
+        if problems or w.canon() != canon0:
             w.close()
             w = build(shape, history, mode)
             part.transitions += len(history)
@@ -816,7 +835,16 @@ def run(ctx):
     nstates = {0: len(frontier)}
     for d in range(1, b['depth'] + 1):
         last = d == b['depth']
-        shards = [(byname[n], hist, 'request', not last) for n, hist in frontier]
+        # sequences of length <= 2 range over the full alphabet in both positions; in longer sequences all but the last
+        # request are history steps (accepted changes of a dynamic limit, of a parameter carrying limits, or of a parameter
+        # with struct members - the only values later answers depend on)
+        def want(hist):
+            if last:
+                return False
+            if d == 1:
+                return 'all'
+            return 'hist' if all(l.get('hist') for l in hist) else False
+        shards = [(byname[n], hist, 'request', want(hist)) for n, hist in frontier]
         if d == 1:
             shards += [(byname[n], hist, 'tcp', False) for n, hist in frontier]
         succ = level(ctx, shards, f'depth{d}')
